@@ -385,3 +385,4 @@ H("C04", "html/tree", "VxH_C04_image_orientation", reach=["computed"], bounds="i
 H("C14", "utils", "VxH_C14_w3c_date", reach=["parsed"], bounds="W3C date-time with a time zone designator: sign x hours {0,1,5,11} x minutes {0,15,30,45}")
 H("C03", "html/tree", "VxH_C03_media", reach=["computed"], bounds="11 media lists (case variants of print / all / screen, lists, empty) in the media attribute of <style> or in an @media rule; print rendering", quick={"maxsteps": 100000000})
 H("C17", "html/document", "VxH_C17_get_matrix", mode="real", reach=["computed"], bounds="getMatrix on a block box of symbolic geometry (position, margins, paddings, borders, width, height >= 0) with a list of 0..2 computed transform functions (translate px / %, scale, rotate, skew, matrix; all arguments symbolic reals) and a symbolic transform-origin in px or %", quick={"shards": 6})
+H("C17", "html/document", "VxH_C17_painter_transform", mode="real", reach=["laid-out", "drawn"], bounds="CSS source to backend: a 20px high block of symbolic width in [10, 80] with one of 9 (thorough 11) transform declarations (translate px / %, scale, rotate, skewX, skewY, matrix, two- and three-function lists; concrete arguments) x 4 transform-origin values; the single Transform call of the painter compared (tolerance 1e-3) with the specification matrix", quick={"shards": 6})
